@@ -170,7 +170,7 @@ def r93(facts, res, ctx):
         step = v[3]
         if not (step[0] == 'widen' and step[3] == longest):
             probs.add('the offset is advanced by %s, not by the longest match' % fmt_term(step)[:80])
-        pos = [(c, val) for c, val in p.conds if c[0] == 'bin' and c[1] in ('Lt', 'Le', 'Eq', 'Ne') and term_has(c, lambda x: isinstance(x, tuple) and x[0] == 'widen' and x[3] == longest)
+        pos = [(c, val) for c, val in p.conds if c[0] == 'bin' and c[1] in ('Lt', 'Le', 'Eq', 'Ne') and term_has(c, lambda x: isinstance(x, tuple) and len(x) > 3 and x[0] == 'widen' and x[3] == longest)
                and term_has(c, lambda x: x == ('const', 0))]
         if not any((c[1] == 'Lt' and c[2] == ('const', 0) and val == 1) or (c[1] in ('Eq',) and val == 0) or (c[1] == 'Ne' and val == 1) or (c[1] == 'Le' and val == 0) for c, val in pos):
             probs.add('the offset can advance although the longest match is empty')
@@ -244,9 +244,20 @@ def r94(facts, res, ctx, cyc):
     pu = rows.get('Push', [])
     if not pu or not any(r[1] == 'Add' and r[0] == () and r[2] is True for r in pu) or not any(r[0] == ('push',) and r[1] is None for r in pu):
         probs.append('Push is not: bump the count of an equal head, else push (%s)' % pu[:3])
+    # ... and on EVERY path (not just on one): an equal head only has its count bumped, anything else pushes
+    for r in pu:
+        if r[2] is True and not (r[0] == () and r[1] == 'Add'):
+            probs.append('Push onto an equal head does %s / count %s instead of only count+1' % (list(r[0]), r[1]))
+        if r[2] is not True and r[0] != ('push',):
+            probs.append('Push onto a different (or no) head does %s instead of one push' % (list(r[0]),))
     po = rows.get('Pop', [])
     if not po or not any(r[1] == 'Sub' and r[0] == () for r in po) or not any(r[0] in (('pop',), ('pop', 'push')) for r in po):
         probs.append('Pop is not: decrement a count > 1, else pop (re-seeding the initial state when empty) (%s)' % po[:4])
+    for r in po:
+        if r[3] is True and not (r[0] == () and r[1] == 'Sub'):
+            probs.append('Pop with a count > 1 does %s / count %s instead of only count-1' % (list(r[0]), r[1]))
+        if r[3] is not True and r[0] not in (('pop',), ('pop', 'push')):
+            probs.append('Pop with a count of 1 does %s on some path: the entry must be removed unconditionally (re-seeding the initial state only when the stack became empty)' % (list(r[0]),))
     if probs:
         res.bad(R, 'stack-ops', loc_of(b, outer), '; '.join(probs))
     else:
